@@ -14,6 +14,8 @@ enum Op {
     Write(log::Level, usize),
     Trigger,
     Flush,
+    /// reopen_output() with the file in place: must not change what ends up in which file
+    Reopen,
 }
 
 fn modes(rng: &mut crate::rng::Rng, with_flusher: bool) -> Vec<WMode> {
@@ -94,6 +96,7 @@ pub fn run_case(ctx: &mut CaseCtx) -> CaseResult {
                 Op::Trigger
             }
             1..=2 => Op::Flush,
+            3 if rng.chance(1, 3) => Op::Reopen,
             _ => Op::Write(
                 *rng.pick(&LEVELS),
                 *rng.pick(&[0usize, 1, 3, 9, 15, 16, 17, 40, 63, 64, 65, 99, 100, 101, 250, 9000]),
@@ -161,6 +164,9 @@ pub fn run_case(ctx: &mut CaseCtx) -> CaseResult {
                     let _ = driver.rotate();
                 }
                 Op::Flush => driver.flush(),
+                Op::Reopen => {
+                    let _ = driver.reopen();
+                }
             }
         }
         driver.shutdown();
